@@ -261,7 +261,7 @@ def run_step(env, st):
         a2, b2, n = npc._tensordot_transpose_axes(a, b, ax if isinstance(ax, int) else (ax[0], ax[1]))
         if n == a2.rank and n == b2.rank:
             w = npc._inner_worker(a2, b2, False)
-        elif n == 0 or a2.stored_blocks < 1 or b2.stored_blocks < 1:
+        elif n == 0 or a2.stored_blocks < 1 or b2.stored_blocks < 1 or (a2.stored_blocks == 1 and b2.stored_blocks == 1):
             w = None
         else:
             w = npc._tensordot_worker(a2, b2, n)
@@ -370,6 +370,9 @@ def run_program(case):
                 pass
         try:
             res = run_step(env, st)
+            for x in (res if isinstance(res, tuple) else (res,)):
+                if isinstance(x, npc.Array) and (int(np.prod(x.shape)) > 40000 or x.rank > 6):
+                    raise SkipStep()            # keeps the serialised observations small; same rule in both configurations
             rec['res'] = observe(res)
             if st['op'] in INPLACE:
                 rec['recv'] = observe(env.regs[st['a']])
@@ -529,18 +532,18 @@ def run_algo(c):
     raise ValueError(kind)
 
 
-def isolated(f, c):
-    """run f(c) in a forked child so that a crash of the interpreter (SIGFPE/SIGSEGV inside the compiled
-    extension) is an observable result {'crash': signal} instead of the loss of the whole batch"""
+def _child(f, cases):
     r, w = os.pipe()
     pid = os.fork()
     if pid == 0:
         os.close(r)
         try:
-            try:
-                out = f(c)
-            except Exception:
-                out = {'runner_error': traceback.format_exc()[-1500:]}
+            out = []
+            for c in cases:
+                try:
+                    out.append(f(c))
+                except Exception:
+                    out.append({'runner_error': traceback.format_exc()[-1500:]})
             with os.fdopen(w, 'w') as fh:
                 json.dump(out, fh)
         finally:
@@ -550,18 +553,38 @@ def isolated(f, c):
         txt = fh.read()
     _, status = os.waitpid(pid, 0)
     if os.WIFSIGNALED(status):
-        return {'crash': int(os.WTERMSIG(status))}
+        return None, int(os.WTERMSIG(status))
     try:
-        return json.loads(txt)
+        return json.loads(txt), None
     except Exception:
-        return {'runner_error': 'child produced no result (status %r)' % (status,)}
+        return None, -1
+
+
+def isolated_all(f, cases, batch=25):
+    """run f on every case in forked children (batches; a batch that dies is repeated case by case) so that a
+    crash of the interpreter (SIGFPE/SIGSEGV inside the compiled extension) is an observable result
+    {'crash': signal} instead of the loss of the whole run"""
+    res = []
+    for i in range(0, len(cases), batch):
+        part = cases[i:i + batch]
+        out, sig = _child(f, part)
+        if out is not None and len(out) == len(part):
+            res.extend(out)
+            continue
+        for c in part:
+            out, sig = _child(f, [c])
+            res.append(out[0] if out else {'crash': sig})
+    return res
 
 
 def main():
     payload = json.load(open(sys.argv[1]))
     kind = payload['kind']
-    f = {'programs': run_program, 'kernels': run_kernel, 'algos': run_algo}[kind]
-    res = [isolated(f, c) for c in payload['cases']]
+    fs = {'programs': run_program, 'kernels': run_kernel, 'algos': run_algo}
+    if kind == 'mixed':
+        res = isolated_all(lambda kc: fs[kc[0]](kc[1]), payload['cases'], batch=20)
+    else:
+        res = isolated_all(fs[kind], payload['cases'])
     info = {'have_cython': bool(optimization.have_cython_functions), 'tenpy_file': tenpy.__file__}
     try:
         if optimization.have_cython_functions:
